@@ -28,7 +28,7 @@ CONFIG = dict(
     min_nontrivial={"quick": 30, "thorough": 500},
     nshards={"quick": 4, "thorough": 8},
     timeout={"quick": 900, "thorough": 5400},
-    required_counters=("earlier_wrappers_kept_alive", "views_read_before_injection", "reserved_name_cases", "refused_first_attempts", "non_default_protocol_cases", "injections", "members_compared", "loads_compared"),
+    required_counters=("positional_calls", "earlier_wrappers_kept_alive", "views_read_before_injection", "reserved_name_cases", "refused_first_attempts", "non_default_protocol_cases", "injections", "members_compared", "loads_compared"),
 )
 
 
@@ -131,7 +131,12 @@ def run_case(ctx, mods, label, obj, text, overwrite, raw=False, proto=None, refu
                             os.remove(out)
                         if not refused_ok:
                             return
-                    wrapper.inject_payload(payload, out, injection="insertion", overwrite=overwrite)
+                    if int(key[:2], 16) % 3 == 0:
+                        # the documented parameters given positionally: (payload, output_path, injection, overwrite)
+                        wrapper.inject_payload(payload, out, "insertion", overwrite)
+                        agg.count("positional_calls")
+                    else:
+                        wrapper.inject_payload(payload, out, injection="insertion", overwrite=overwrite)
         except Exception as e:
             agg.violation(f"injection-raises:{type(e).__name__}", f"inject_payload raised on a torch.save zip file: {str(e)[:150]}", w)
             return
